@@ -57,10 +57,10 @@ Lemma f_close_kept f : node_kept f (fst (f_close f)).
 Proof. unfold f_close, node_kept. brk; cbn [fst hd_node]; intros; congruence. Qed.
 
 Lemma f_read_dir_kept s v f n : node_kept f (fst (f_read_dir s v f n)).
-Proof. unfold f_read_dir, node_kept. brk; cbn [fst hd_node]; intros; congruence. Qed.
+Proof. unfold f_read_dir, dir_read, node_kept. brk; cbn [fst hd_node]; intros; congruence. Qed.
 
 Lemma f_readdirnames_kept s v f n : node_kept f (fst (f_readdirnames s v f n)).
-Proof. unfold f_readdirnames, node_kept. brk; cbn [fst hd_node]; intros; congruence. Qed.
+Proof. unfold f_readdirnames, dir_read, node_kept. brk; cbn [fst hd_node]; intros; congruence. Qed.
 
 Lemma f_write_kept s v f b : node_kept f (snd (fst (f_write s v f b))).
 Proof. unfold f_write, node_kept, set_at. brk; cbn [fst snd hd_node]; intros; congruence. Qed.
